@@ -107,6 +107,11 @@ def _restrict(t: "T", ckey: str, val: bool) -> "T":
         c, fl = _pos_cond(t.args[0])
         if c.key() == ckey:
             return _restrict(t.args[1] if (val != fl) else t.args[2], ckey, val)
+        # a condition that is itself a conditional with constant outcomes:  (False if c else True)
+        c2 = _restrict(t.args[0], ckey, val)
+        c2p, fl2 = _pos_cond(c2)
+        if c2p.op == "const" and isinstance(c2p.name, bool):
+            return _restrict(t.args[1] if (c2p.name != fl2) else t.args[2], ckey, val)
     if not t.args and not t.kw:
         return t
     return T(t.op, t.name, [_restrict(a, ckey, val) for a in t.args], {k: _restrict(v, ckey, val) for k, v in t.kw.items()}, t.node)
@@ -213,6 +218,7 @@ class Expander:
         self.stmt_guards: Dict[int, tuple] = {}
         self.final_env: Dict[str, T] = {}
         self.env_at: Dict[int, Dict[str, T]] = {}
+        self.return_guards: List[tuple] = []
         self._cache: Dict[int, T] = {}
         env = dict(outer_env or {})
         a = fi.node.args
@@ -231,6 +237,29 @@ class Expander:
             self.env_at[id(st)] = dict(env)
             env = self._stmt(st, env)
         return env
+
+    def merged_return(self) -> Optional["T"]:
+        """The returned value as ONE term: `if c: return a` followed by `return b` is `a if c else b` (early returns and
+        a conditional expression are the same function).  None if the returns cannot be merged (loops, nested guards
+        that do not form a chain)."""
+        if not self.returns or len(self.returns) != len(self.return_guards):
+            return self.returns[-1] if len(self.returns) == 1 else None
+        if len(self.returns) == 1:
+            return self.returns[0]
+        out = None
+        for r, gs in reversed(list(zip(self.returns, self.return_guards))):
+            gs = [g for g in gs if g.op != "loop"]
+            if any(g.op == "loop" for g in gs):
+                return None
+            if out is None:
+                # the last return: reached when none of the earlier guards held (its own guards are the negations)
+                out = r
+                continue
+            if not gs:
+                return None  # an unconditional return followed by more returns: dead code, do not guess
+            cond = gs[0] if len(gs) == 1 else T("bool", "And", list(gs))
+            out = T("ifexp", None, [cond, r, out], node=r.node)
+        return out
 
     def term_of_source(self, src: str, at_stmt: ast.AST = None) -> "T":
         """The term of an expression given as source text, with names bound as they are at statement `at_stmt` (or at
@@ -340,11 +369,20 @@ class Expander:
             if isinstance(c, ast.Call) and isinstance(c.func, ast.Attribute):
                 self.stores.append(Store("mcall", self._tr(c.func.value), T("const", c.func.attr),
                                          self._tr(c), c, st, tuple(self.guard_stack)))
+                # a local list that is filled with append/extend keeps what was put into it:  acc(list, guard?, element)
+                if c.func.attr in ("append", "extend") and isinstance(c.func.value, ast.Name) and c.func.value.id in env \
+                        and len(c.args) == 1 and env[c.func.value.id].op in ("list", "listacc", "phi", "carried", "call", "ifexp"):
+                    old = env[c.func.value.id]
+                    is_listy = old.op in ("list", "listacc") or T.find(old, lambda x: x.op in ("list", "listacc")) is not None
+                    if is_listy:
+                        env = dict(env)
+                        env[c.func.value.id] = T("listacc", c.func.attr, [old, self._tr(c.args[0])], node=c)
             return env
         if isinstance(st, ast.Return):
             if st.value is not None:
                 self._record_names(st.value, env)
                 self.returns.append(self._tr(st.value))
+                self.return_guards.append(tuple(self.guard_stack))
             return env
         if isinstance(st, ast.If):
             self._record_names(st.test, env)
